@@ -675,9 +675,43 @@ func longCase(rng *rand.Rand) Case {
 	return Case{Term: *top, Lens: g.lens, Reqs: ops}
 }
 
+// overCase: a section that reaches beyond the end of what it is a section of (nested in further sections or not): its denotation
+// stops at that end. Reads and seeks from the start or the cursor only: SeekBits from the end answers with the declared length.
+func overCase(rng *rand.Rand) Case {
+	g := &gen{rng: rng, lens: map[string]int64{}}
+	t, n := g.bitTerm(2)
+	for !g.readable(t) || n == 0 {
+		t, n = g.bitTerm(2)
+	}
+	for w := 1 + rng.Intn(2); w > 0; w-- {
+		off := rng.Int63n(n + 1)
+		l := n - off + 1 + int64(rng.Intn(20)) // beyond the end
+		if w > 1 && rng.Intn(2) == 0 {
+			l = rng.Int63n(n - off + 1) // an ordinary section below the reaching one
+		}
+		t = &Term{T: "section", R: t, Off: off, N: l}
+		n = min(l, n-off)
+		if n <= 0 {
+			n = 0
+			break
+		}
+	}
+	var ops []Op
+	for _, o := range g.history(1, n, true) {
+		if o.Op == "seek" && o.Wh == 2 {
+			o.Wh, o.Off = 0, rng.Int63n(n+3)
+		}
+		ops = append(ops, o)
+	}
+	return Case{Term: *t, Lens: g.lens, Reqs: ops}
+}
+
 func randCase(rng *rand.Rand) Case {
 	if rng.Intn(12) == 0 {
 		return longCase(rng)
+	}
+	if rng.Intn(12) == 0 {
+		return overCase(rng)
 	}
 	g := &gen{rng: rng, lens: map[string]int64{}}
 	var t *Term
